@@ -153,7 +153,7 @@ func (g *g) comment() string {
 }
 
 func (g *g) expr(depth int) string {
-	n := 13
+	n := 15
 	if depth > 2 {
 		n = 4
 	}
@@ -192,8 +192,13 @@ func (g *g) expr(depth int) string {
 		return fmt.Sprintf("(%s)(%s)[%s:%s]", g.qt(), g.expr(depth+1), g.q(), g.pick(locals))
 	case 11:
 		return fmt.Sprintf("(*%s).%s", g.q(), g.pick(exported))
-	default:
+	case 12:
 		return fmt.Sprintf("<-%s + -%s", g.q(), g.q())
+	case 13:
+		// qualified identifiers as composite-literal KEYS (map keys, array indices)
+		return fmt.Sprintf("map[%s]int{%s: 1, %s: %s}", g.q(), g.q(), g.q(), g.expr(depth+1))
+	default:
+		return fmt.Sprintf("[...]string{%s: \"x\", %s + 1: \"y\"}", g.q(), g.q())
 	}
 }
 
@@ -249,7 +254,14 @@ func (g *g) stmt(depth int) string {
 }
 
 func (g *g) decl() string {
-	switch g.t.Draw(10) {
+	switch g.t.Draw(12) {
+	case 10:
+		// trailing /* */ comments on specs with fewer cells than their neighbours (column alignment)
+		g.nvar++
+		return fmt.Sprintf("const (\nk%da int = iota /* %s */\nk%db /* %s */\nk%dlonger /* %s */\nk%dc = %s // %s\n)", g.nvar, g.comment(), g.nvar, g.comment(), g.nvar, g.comment(), g.nvar, g.q(), g.comment())
+	case 11:
+		g.ntype++
+		return fmt.Sprintf("type S%d struct {\n%s /* %s */\nname string /* %s */\n*%s /* %s */\nlongerName map[string]%s // %s\n}", g.ntype, g.q(), g.comment(), g.comment(), g.q(), g.comment(), g.q(), g.comment())
 	case 9:
 		g.nvar++
 		return fmt.Sprintf("/*\nblock %s\n\nend\n*/\n\nvar v%d = `x\n\n\ny`", g.comment(), g.nvar)
